@@ -29,7 +29,7 @@ def gen(rng, tier):
     if not rot and not base and not disc and sfx is None:
         base = b"a"          # without rotation the file name must not be empty
     naming = rng.choice(g.NAMINGS)
-    cfg = g.Cfg(base=base, disc=disc, sfx=sfx, ts=rng.random() < 0.25, crit=("s%d" % rng.choice([0, 6, 30])) if rot else None, naming=naming,
+    cfg = g.Cfg(base=base, disc=disc, sfx=sfx, ts=rng.choice([False, False, True, "d", "D"]), crit=("s%d" % rng.choice([0, 6, 30])) if rot else None, naming=naming,
                 cleanup=rng.choice(["n", "n", "l2", "g1", "b1.1"]) if rot else "n", link=rng.random() < 0.6,
                 append=rng.random() < 0.3, cap=rng.choice([None, None, 16]))
     ops = []
